@@ -51,6 +51,44 @@ fn c20() {
     println!("C20 len {} verify {:?} read-after-flip {:?}", len, rep.overall_status, got);
 }
 
+
+fn c20blob() {
+    let dir = tempfile::tempdir().unwrap();
+    let p = dir.path().join("a.mv2");
+    let mut seed = 7u64;
+    let data: Vec<u8> = (0..4096).map(|_| (lcg(&mut seed) & 0xff) as u8).collect();
+    { let mut m = Memvid::create(&p).unwrap(); m.put_bytes(&data).unwrap(); m.commit().unwrap(); }
+    let (off, enc) = { let m = Memvid::open_read_only(&p).unwrap(); let f = m.frame_by_id(0).unwrap(); (f.payload_offset, f.canonical_encoding) };
+    let mut f = std::fs::OpenOptions::new().read(true).write(true).open(&p).unwrap();
+    f.seek(SeekFrom::Start(off + 100)).unwrap(); let mut b=[0u8;1]; f.read_exact(&mut b).unwrap(); b[0]^=0x55;
+    f.seek(SeekFrom::Start(off + 100)).unwrap(); f.write_all(&b).unwrap(); f.sync_all().unwrap(); drop(f);
+    let mut m = Memvid::open_read_only(&p).unwrap();
+    let mut r = m.blob_reader(0).unwrap();
+    let mut got = Vec::new();
+    let res = r.read_to_end(&mut got);
+    println!("C20blob encoding {:?} blob_reader read {:?} equals-original {} (expect an error or the original)", enc, res.is_ok(), got == data);
+    println!("C20blob canonical payload after flip: {:?}", m.frame_canonical_payload(0).map(|v| v == data));
+    let rep = Memvid::verify(&p, true).unwrap();
+    println!("C20blob verify(deep): {:?} failed checks {:?}", rep.overall_status, rep.checks.iter().filter(|c| c.status == VerificationStatus::Failed).map(|c| (c.name.clone(), c.details.clone())).collect::<Vec<_>>());
+    let fr = m.frame_by_id(0).unwrap();
+    println!("C20blob frame role {:?} manifest {:?} checksum-zero {} len {}", fr.role, fr.chunk_manifest.is_some(), fr.checksum == [0u8;32], fr.payload_length);
+}
+
+
+fn c07() {
+    for n in [100usize, 3000, 4096, 20000] {
+        let dir = tempfile::tempdir().unwrap();
+        let p = dir.path().join("a.mv2");
+        let mut seed = 7u64;
+        let data: Vec<u8> = (0..n).map(|_| (lcg(&mut seed) & 0xff) as u8).collect();
+        let mut m = Memvid::create(&p).unwrap(); m.put_bytes(&data).unwrap(); m.commit().unwrap();
+        let fr = m.frame_by_id(0).unwrap();
+        let got = m.frame_canonical_payload(0).unwrap();
+        let mut r = m.blob_reader(0).unwrap(); let mut b = Vec::new(); r.read_to_end(&mut b).unwrap();
+        println!("C07 n={} utf8={} frames={} manifest={} canonical==P {} (len {}) blob==P {}", n, std::str::from_utf8(&data).is_ok(), m.frame_count(), fr.chunk_manifest.is_some(), got == data, got.len(), b == data);
+    }
+}
+
 fn c32() {
     let dir = tempfile::tempdir().unwrap();
     let p = dir.path().join("a.mv2");
@@ -268,5 +306,5 @@ fn c08() {
 
 fn main() {
     let which = std::env::args().nth(1).unwrap_or_default();
-    match which.as_str() { "c05"=>c05(), "c26"=>c26(), "c20"=>c20(), "c32"=>c32(), "c11"=>c11(), "c17"=>c17(), "c08"=>c08(), "c29"=>c29(), "c14"=>c14(), "c09"=>c09(), "c18"=>c18(), "c23"=>c23(), "c16"=>c16(), "c40"=>c40(), "c24"=>c24(), "c15"=>c15(), "c22"=>c22(), _=>{ c05(); c26(); c20(); c11(); c17(); } }
+    match which.as_str() { "c05"=>c05(), "c26"=>c26(), "c20"=>c20(), "c20blob"=>c20blob(), "c07"=>c07(), "c32"=>c32(), "c11"=>c11(), "c17"=>c17(), "c08"=>c08(), "c29"=>c29(), "c14"=>c14(), "c09"=>c09(), "c18"=>c18(), "c23"=>c23(), "c16"=>c16(), "c40"=>c40(), "c24"=>c24(), "c15"=>c15(), "c22"=>c22(), _=>{ c05(); c26(); c20(); c11(); c17(); } }
 }
